@@ -11,6 +11,31 @@ from .common import B, paths_of, calls, mut_ptr_roots, is_ok_agg, is_err_agg, lo
 def run(ctx):
     f = ctx.facts("A")
     ctx.explanation = __doc__
+    check_wrappers(ctx, f)
+    # "succeeds exactly when the move is legal": the guard's own meaning (C04 owns these rules)
+    from . import c04
+    from .. import lift
+    L = lift.Lifter(f)
+    ctx.rule("guard-meaning.is_legal")
+    c04.check_is_legal(ctx, f, L)
+    c04.check_king_is_legal(ctx, f, L)
+    # ... and "legal" is the rules' notion: is_legal is held to move generation, move generation to the rules (owned by C01;
+    # a slip in a generator that is_legal shares is invisible to the agreement rule above)
+    from . import c01
+    expl_ = ctx.explanation
+    c01.run(ctx)
+    ctx.explanation = expl_
+
+
+def check_wrappers(ctx, f):
+    """try_play and play hand exactly (self, mv) to the unchecked play, under is_legal(self, mv); also re-run by C02
+    ("playing a legal move" goes through these wrappers: one that rewrites the move first plays a different move)"""
+    if ctx.pid != "C15":
+        key = ("c15-wrappers", getattr(ctx, "rule_suffix", ""))
+        done = ctx.__dict__.setdefault("_groups_done", set())
+        if key in done:
+            return
+        done.add(key)
     body, paths = paths_of(f, B + "::try_play")
     ctx.saw(body.key + " (%d paths)" % len(paths))
     self_root = ("P", "self")
@@ -125,16 +150,3 @@ def run(ctx):
                 callers.append(k.split("::{closure")[0])
     ctx.note("callers of play_unchecked in the library: %s" % sorted(set(callers)))
     ctx.check(B + "::try_play" in callers, "unchecked-reached-from-try_play", "try_play no longer reaches play_unchecked")
-    # "succeeds exactly when the move is legal": the guard's own meaning (C04 owns these rules)
-    from . import c04
-    from .. import lift
-    L = lift.Lifter(f)
-    ctx.rule("guard-meaning.is_legal")
-    c04.check_is_legal(ctx, f, L)
-    c04.check_king_is_legal(ctx, f, L)
-    # ... and "legal" is the rules' notion: is_legal is held to move generation, move generation to the rules (owned by C01;
-    # a slip in a generator that is_legal shares is invisible to the agreement rule above)
-    from . import c01
-    expl_ = ctx.explanation
-    c01.run(ctx)
-    ctx.explanation = expl_
